@@ -283,6 +283,8 @@ class Run:
     def h_count(self, sx, a, kw):
         start = a[0] if a else kw.get("start", 0)
         step = a[1] if len(a) > 1 else kw.get("step", 1)
+        if len(a) > 2 or not (isinstance(start, int) and isinstance(step, int)) or set(kw) - {"start", "step"}:
+            return NotImplemented      # some other function that happens to be called `count`
         return self.counters.setdefault((start, step), _Count(start, step))
 
     def h_next(self, sx, a, kw):
@@ -632,10 +634,14 @@ def scheme_findings(spec, recs, final=True):
             if len(r.target) > spec.max_dim and r.target != requested:
                 out.append(("R16e", "itmd dim", f"{r.show()} creates an intermediate of dimension {len(r.target)}, "
                             f"max_itmd_dim={spec.max_dim}"))
-    # value
-    if not out:
+    # value (decided independently of the structural findings above)
+    if final:
         want = direct_value(spec.leaves(), requested)
         got, err = scheme_value(recs)
+        if got is not None and recs[-1].target != requested and sorted(recs[-1].target) == sorted(requested):
+            # same result indices in another order: compare the tensors up to that transposition
+            perm = [recs[-1].target.index(k) for k in requested]
+            got = {tuple(key[p] for p in perm): v for key, v in got.items()}
         if err or got != want:
             out.append(("R16h", "value", "carried out step by step the scheme does not give the value of the term"
                         + (f" ({err})" if err else "")))
@@ -696,6 +702,8 @@ QUICK = [
     S("big intermediate", [("A", "ijab"), ("B", "klab"), ("C", "kc"), ("D", "lc")], target="ij", max_dim=2),
     S("rank by total", [("X", "ip"), ("Y", "pq"), ("Z", "qj"), ("W", "abj")], target="iab"),
     S("limit below the first level", [("A", "ij"), ("B", "jk", 2), ("C", "ik"), ("D", "ab")], max_n=3),
+    S("result above dim", [("t2", "acik"), ("t2", "bcjk")], target="ijab", max_dim=2),
+    S("result above dim 3 objects", [("t1", "ia"), ("t1", "jb"), ("f", "bc")], target="iajc", max_dim=2),
     S("rank general before virt/occ", [("A", "j"), ("B", "jq"), ("C", "kq")]),
     S("rank general before virt", [("A", "ibp"), ("B", "i"), ("C", "p")]),
     S("rank virt before occ", [("A", "ia"), ("B", "ij"), ("C", "aj")]),
